@@ -1,10 +1,12 @@
 import Mdns.Driver.C16
 import Mdns.Driver.Wire
 import Mdns.Driver.Sim
+import Mdns.Driver.SimAll
 import Mdns.Driver.C11
 import Mdns.Driver.C08
 import Mdns.Driver.C18
 import Mdns.Driver.C19
+import Mdns.Driver.C02
 /-
   Line-protocol driver (`lean_exe mdnsmodel`).
   stdin: op lines, each followed by the implementation's observation line `= ...`.
@@ -30,17 +32,19 @@ def dispatchExec (op : String) (ts impl : List String) : Option String :=
   else if c08Ops.contains op then Driver.C08.exec op ts impl
   else if c18Ops.contains op then Driver.C18.exec op ts
   else if op == "backoff" then Driver.C19.exec op ts
+  else if op == "encode" || op == "escape" || op == "parse-escaped" then Driver.C02.exec op ts
   else none
 
 def dispatchMon (op : String) (ts impl : List String) : Option String :=
   if op.startsWith "txt-" then Driver.C16.monitor op ts impl
   else if op == "decode" then Driver.Wire.monitor op ts impl
-  else if op == "sim" then Driver.Sim.monitorOp ts impl
-  else if op == "sim2" then Driver.Sim.monitorOp2 ts impl
+  else if op == "sim" then Driver.SimAll.monitorOp ts impl
+  else if op == "sim2" then Driver.SimAll.monitorOp2 ts impl
   else if Driver.C11.isOp op then Driver.C11.monitor op ts impl
   else if c08Ops.contains op then Driver.C08.monitor op ts impl
   else if c18Ops.contains op then Driver.C18.monitor op ts impl
   else if op == "backoff" then Driver.C19.monitor op ts impl
+  else if op == "encode" || op == "escape" || op == "parse-escaped" then Driver.C02.monitor op ts impl
   else some "unknown-op"
 
 partial def loop (h : IO.FS.Stream) (out : IO.FS.Stream) (cur : Option (List String)) : IO Unit := do
